@@ -18,7 +18,7 @@ META = dict(
 def tasks(tier):
     from vf.core import Task
     W = lambda name, fname, **kw: Task('props.wire:run', name='C05/wire.' + name, fname=fname, kwargs=kw, timeout=400)
-    ts = [Task('props.C05:ob_memo', name='C05/memo-keys', timeout=120), W('c05_inbreeding_roles', 'c05_inbreeding_roles'), W('trapz', 'c05_trapz'),
+    ts = [Task('props.C05:ob_memo', name='C05/memo-keys', timeout=120), W('c05_inbreeding_roles', 'c05_inbreeding_roles'), W('inbreeding_1d.n2_G4', 'c05_inbreeding_1d', n=2, G=4), W('inbreeding_1d.n4_G3', 'c05_inbreeding_1d', n=4, G=3), W('trapz', 'c05_trapz'),
           W('direct_1d.n3_G4', 'c05_direct_1d', n=3, G=4), W('direct_1d.n2_G3_het', 'c05_direct_1d', n=2, G=3, het='xx'),
           W('direct_2d.2_1_G3', 'c05_direct_2d', nx=2, ny=1, G=3)]
     ts += [W('dispatch.%dD' % P, 'c05_from_phi_dispatch', P=P) for P in (1, 2, 3, 4)]
